@@ -1304,7 +1304,7 @@ func runC07(c *Ctx) {
 			seen[s] = true
 			idx++
 			nStale++
-			r.Add("R2", fmt.Sprintf("stale-close:%s#%d", c.FuncKey(m), idx), c.InstrPos(s), c.FuncKey(m), "a goroutine that already left the WaitGroup does not call the identity-less teardown", c.teardownTakesToken(),
+			r.Add("R2", fmt.Sprintf("stale-close:%s#%d", c.memberRoleKey(m), idx), c.InstrPos(s), c.FuncKey(m), "a goroutine that already left the WaitGroup does not call the identity-less teardown", c.teardownTakesToken(),
 				"call of "+c.FuncKey(a.Teardown)+" after wg.Done(): it acts on whichever connection is current, so it can tear down the next connection")
 		}
 	}
@@ -1652,4 +1652,37 @@ func (c *Ctx) addSpawnBalance(fn *ssa.Function) (bool, string) {
 // (conditions that also guard b itself are not specific to the call).
 func instrDominatesBlock(a *ssa.If, b ssa.Instruction) bool {
 	return a != nil && instrDominates(a, b)
+}
+
+// memberRoleKey names a connection goroutine by its role rather than by its
+// (unexported, renamable) function name, so that a known finding keeps its
+// identity across a rename: the goroutine that forwards the outbound queue is
+// "(*client.Conn).send", the one that fills the inbound queue "recv", the one
+// that consumes it "runLoop", a ticker-driven one "ping". The canonical
+// spellings are those of the tree the findings were recorded on.
+func (c *Ctx) memberRoleKey(m *ssa.Function) string {
+	a := c.A
+	role := ""
+	if pf := c.producerFrame(); pf != nil && pf.Member == m {
+		role = "recv"
+	}
+	for _, op := range ChanOps(m) {
+		switch {
+		case op.Kind == "recv" && c.ChanMayBe(op.Chan, a.Out) && valueUsed(recvValue(op)):
+			role = "send"
+		case op.Kind == "recv" && c.ChanMayBe(op.Chan, a.In) && valueUsed(recvValue(op)):
+			role = "runLoop"
+		}
+	}
+	if role == "" {
+		funcInstrs(m, func(in ssa.Instruction) {
+			if cc := callOf(in); cc != nil && calleeName(cc) == "time.NewTicker" {
+				role = "ping"
+			}
+		})
+	}
+	if role == "" {
+		return c.FuncKey(m)
+	}
+	return "(*client.Conn)." + role
 }
